@@ -219,6 +219,9 @@ def ops_sets(rng):
     v = one(rng, ks)
     o.append("contains %s ; %s" % (hx(rng.choice(v + [99.0])), vec(v)))
     o.append("which %s ; %s" % (hx(rng.choice(v + [99.0])), vec(v)))
+    o.append("whichall %s ; %s" % (hx(rng.choice(v + [99.0])), vec(v)))
+    k = rng.choice([0, 1, 2, 2, 3, 4])
+    o.append(("appendall " + " ; ".join(vec(values(rng, rng.randint(0, 6), "tiny")) for _ in range(k))).strip())
     for name in ("union", "inter", "diff", "havesame", "containsall"):
         k = rng.choice(ks)
         a = values(rng, length(rng), k)
